@@ -27,7 +27,7 @@ func genSeeds(r *rng, n int, tier string) []string {
 
 func c02Case(seed uint64) ([]*shape, string) {
 	r := newRng(seed, "c02case")
-	g := &shapeGen{r: r}
+	g := &shapeGen{r: r, multiline: seed%3 == 0}
 	n := 1 + r.intn(4)
 	stmts := make([]*shape, n)
 	for i := range stmts {
